@@ -64,6 +64,37 @@ fn expect_family(mf: &MetricFamily) -> DFamily {
     }
 }
 
+fn normalise(f: &DFamily) -> DFamily {
+    let z = |v: &Option<u64>| Some(v.unwrap_or(0));
+    let zd = |v: &Option<u64>| Some(v.unwrap_or(0f64.to_bits()));
+    DFamily {
+        name: Some(f.name.clone().unwrap_or_default()),
+        help: Some(f.help.clone().unwrap_or_default()),
+        ty: z(&f.ty),
+        metrics: f
+            .metrics
+            .iter()
+            .map(|m| DMetric {
+                labels: m.labels.iter().map(|l| DLabel { name: Some(l.name.clone().unwrap_or_default()), value: Some(l.value.clone().unwrap_or_default()) }).collect(),
+                gauge: m.gauge.as_ref().map(zd),
+                counter: m.counter.as_ref().map(zd),
+                untyped: m.untyped.as_ref().map(zd),
+                summary: m.summary.as_ref().map(|s| DSummary {
+                    count: z(&s.count),
+                    sum: zd(&s.sum),
+                    quantiles: s.quantiles.iter().map(|q| DQuantile { quantile: zd(&q.quantile), value: zd(&q.value) }).collect(),
+                }),
+                histogram: m.histogram.as_ref().map(|h| DHistogram {
+                    count: z(&h.count),
+                    sum: zd(&h.sum),
+                    buckets: h.buckets.iter().map(|b| DBucket { cumulative: z(&b.cumulative), upper: zd(&b.upper) }).collect(),
+                }),
+                ts: Some(m.ts.unwrap_or(0)),
+            })
+            .collect(),
+    }
+}
+
 /// Knock out / perturb optional fields through the public API of the generated structs.
 fn perturb(src: &mut Src, mf: &mut MetricFamily, rep: &mut Report) {
     if src.chance(20) {
@@ -179,6 +210,33 @@ impl Property for C13 {
             }
             l
         };
+        // message sizes at the varint boundaries of the length prefix (127/128, 16383/16384): pad the help text of one
+        // family so that its serialized size lands exactly on a generated target around a boundary
+        let mut lib = lib;
+        if !lib.is_empty() && src.chance(40) {
+            use protobuf::Message;
+            let target = [127usize, 128, 129, 16383, 16384, 16385, 255, 256][src.below(8)] + src.below(3) - 1;
+            let k = src.below(lib.len());
+            for _ in 0..3 {
+                let cur = lib[k].compute_size() as usize;
+                if cur == target {
+                    break;
+                }
+                let mut h = lib[k].help().to_string();
+                if cur < target {
+                    h.push_str(&"p".repeat(target - cur));
+                } else {
+                    let cut = (cur - target).min(h.len());
+                    let mut n = h.len() - cut;
+                    while n > 0 && !h.is_char_boundary(n) {
+                        n -= 1;
+                    }
+                    h.truncate(n);
+                }
+                lib[k].set_help(h);
+            }
+            rep.class("message-size-at-varint-boundary");
+        }
         let want: Vec<DFamily> = lib.iter().map(expect_family).collect();
         let must_fail = want.iter().any(|f| f.name.as_deref().unwrap_or("").is_empty() || f.metrics.is_empty());
         let mut buf = Vec::new();
@@ -201,6 +259,9 @@ impl Property for C13 {
         };
         ensure!(got.len() == want.len(), "message-count-differs", "{} messages for {} families ;; bytes={:?}", got.len(), want.len(), buf);
         for (i, (g, w)) in got.iter().zip(&want).enumerate() {
+            // proto2 scalar fields: an absent field reads as its default, so "absent" and "present with the default
+            // value" describe the same family; which payload *message* is present stays significant
+            let (g, w) = (&normalise(g), &normalise(w));
             if g != w {
                 let sig = if g.name != w.name || g.help != w.help || g.ty != w.ty {
                     "family-header-differs"
